@@ -8,8 +8,11 @@
 package main
 
 import (
+	"bytes"
 	"fmt"
 	"time"
+
+	"github.com/itchio/wharf/bsdiff"
 
 	"verif/lib/runner"
 )
@@ -18,7 +21,7 @@ func main() {
 	runner.Main(runner.Config{
 		ID:    "C12",
 		Level: "model_checking",
-		Rule:  "differ/applier: every (old,new) over {0,1} with lengths 0..8 (quick: 0..6) x Partitions 0..16 and over {0,1,2} with lengths 0..5 (quick: 0..4) x Partitions {0,1,2,3,5,16}, SuffixSortConcurrency cycling over {0,1,-1} and fresh/reused DiffContext alternating with the case ordinal, run through the real DiffContext.Do; oracle per run: no panic/crash, Do returns nil, exactly one Eof message and it is last, sum(len add+len copy)=len(new), a reference applier and the real PatchContext.Patch both yield new, and for every message index i a fresh IndividualPatchContext started at the OldOffset saved after i messages yields the same remainder. The region old=\"\" x new!=\"\" of the same space is enumerated by the sub-check empty-old in groups (one group = one journaled case) because every member kills the process on the unrepaired tree. Structured large family: old in {period 1,3,256, pseudo-random} x size {64,4096,128KiB-1,128KiB+1,300KiB,2MiB} x new in {same,prefix,suffix,every k-th byte changed,block moved,unrelated,empty,longer} x Partitions {0,1,2,7,16} (restart oracle at all indices for series of <=24 messages, else at {0,1,2,n/4,n/2,3n/4,n-2,n-1,n}). Scaled-cache variants (overlay builds with only lruChunkSize/lruNumEntries of NewIndividualPatchContext changed to 1x2, 3x1, 4x3; geometry verified at run time through a recording reader): every (old,new) over {0,1} with lengths 0..6 (quick: 0..5) x Partitions {0,2,3} and the 64/4096-byte members of the large family through the same oracles, so that the real applier reads through a cache that evicts constantly. Read cache: explicit-state BFS to fixpoint over the real lrufile for chunk 1..4 x entries 1..3 x file size 0..9 (quick: 0..6) x underlying reader {bytes.Reader, *os.File}; operations Seek(o,Start) o=-1..size+1, Seek(+-1,Current), Seek(-o,End), Read(n) n in {1,chunk-1,chunk,chunk+1,2chunk+1}, Reset(other file); states are shadow states (file, offset, LRU-ordered resident chunks with slots), every successor is produced by replaying the shortest path on a fresh lrufile plus one operation and comparing data, count, error, position and Stats() with the model. Non-trivial: differ case = some series has both a non-empty Add and a non-empty Copy; cache geometry = the search contains an eviction, a read spanning chunks and a hit.",
+		Rule:  "differ/applier: every (old,new) over {0,1} with lengths 0..8 (quick: 0..6) x Partitions 0..16 and over {0,1,2} with lengths 0..5 (quick: 0..4) x Partitions {0,1,2,3,5,16}, SuffixSortConcurrency cycling over {0,1,-1} and fresh/reused DiffContext alternating with the case ordinal, run through the real DiffContext.Do; oracle per run: no panic/crash, Do returns nil, exactly one Eof message and it is last, sum(len add+len copy)=len(new), a reference applier and the real PatchContext.Patch both yield new, and for every message index i a fresh IndividualPatchContext started at the OldOffset saved after i messages yields the same remainder. The region old=\"\" x new!=\"\" of the same space is enumerated by the sub-check empty-old in groups (one group = one journaled case) because every member kills the process on the unrepaired tree. Structured large family: old in {period 1,3,256, pseudo-random} x size {64,4096,128KiB-1,128KiB+1,300KiB,2MiB} x new in {same,prefix,suffix,every k-th byte changed,block moved,unrelated,empty,longer} x Partitions {0,1,2,7,16} (restart oracle at all indices for series of <=24 messages, else at {0,1,2,n/4,n/2,3n/4,n-2,n-1,n}). Scaled-cache variants (overlay builds with only lruChunkSize/lruNumEntries of NewIndividualPatchContext changed to chunk x entries = 1x2, 2x3, 3x2, 4x1; geometry verified at run time through a recording reader): every (old,new) over {0,1} with lengths 0..6 (quick: 0..5) x Partitions {0,2,3} and the 64/4096-byte members of the large family through the same oracles, so that the real applier reads through a cache that evicts constantly; plus every valid hand-made series of 1..5 (quick: 1..4) messages with add lengths {0,1,2,3,5}, a one-byte copy and every seek target over a 9-byte old file of distinct bytes, applied with the real IndividualPatchContext and compared with direct reads of the old file. Read cache: explicit-state BFS to fixpoint over the real lrufile for chunk 1..4 x entries 1..3 x file size 0..9 (quick: 0..6) x underlying reader {bytes.Reader, *os.File}; operations Seek(o,Start) o=-1..size+1, Seek(+-1,Current), Seek(-o,End), Read(n) n in {1,chunk-1,chunk,chunk+1,2chunk+1}, Reset(other file); states are shadow states (file, offset, LRU-ordered resident chunks with slots), every successor is produced by replaying the shortest path on a fresh lrufile plus one operation and comparing data, count, error, position and Stats() with the model. Non-trivial: differ case = some series has both a non-empty Add and a non-empty Copy; hand-made series = its adds read more distinct chunks than the cache holds and one add starts below the end of an earlier one; cache geometry = the search contains an eviction, a read spanning chunks and a hit.",
 		Assumptions: []string{
 			"byte values outside the small alphabets only occur in the large family (seeded pseudo-random streams and periodic patterns)",
 			"goroutine interleavings of the scanner are not controlled here (free-running); the schedule dimension belongs to the E2 part of C12",
@@ -27,7 +30,7 @@ func main() {
 			"the offset left behind by a rejected (out of range) Seek is not specified by the property: the model adopts the implementation's value",
 			"the search de-duplicates on the shadow state: stale bytes left in the cache storage by earlier loads are not part of the state identity",
 		},
-		Variants:       []string{"c1e2", "c3e1", "c4e3"},
+		Variants:       []string{"c1e2", "c2e3", "c3e2", "c4e1"},
 		QuickBudget:    90 * time.Second,
 		ThoroughBudget: 15 * time.Minute,
 	}, body)
@@ -177,7 +180,30 @@ func body(w *runner.W) {
 	for _, v := range []struct {
 		name           string
 		chunk, entries int
-	}{{"c1e2", 1, 2}, {"c3e1", 3, 1}, {"c4e3", 4, 3}} {
+	}{{"c1e2", 1, 2}, {"c2e3", 2, 3}, {"c3e2", 3, 2}, {"c4e1", 4, 1}} {
+		// hand-made series: every valid sequence of up to 5 (quick: 4) messages with
+		// add lengths {0,1,2,3,5} and every seek target over a 9-byte old file
+		syn := runner.NewSub(w, "scaled-cache-series-"+v.name, func(c SeriesCase, r *runner.Rec) {
+			var out, want bytes.Buffer
+			if fp, msg := applySeries(bsdiff.NewPatchContext(), synthOld(c.OldLen), c.Msgs, &out, &want); fp != "" {
+				r.Failf(fp, "%s", msg)
+			}
+		}, runner.Variant(v.name))
+		if syn.Active() {
+			if ch, en := probeCacheGeometry(); ch != v.chunk || en != v.entries {
+				syn.Skip(fmt.Sprintf("the applier's cache behaves like chunk=%d entries=%d in this build, expected %d/%d", ch, en, v.chunk, v.entries))
+			} else {
+				depth := 5
+				if w.Quick() {
+					depth = 4
+				}
+				enumSeries(w, syn, 9, depth, v.chunk, v.entries)
+				syn.Sample(SeriesCase{OldLen: 9, Msgs: [][2]int{{3, 1}, {2, 7}, {2, 0}, {5, 5}}})
+				syn.Note("depth", depth)
+				syn.Done()
+			}
+		}
+
 		var sc *runner.Sub[DiffCase]
 		sc = runner.NewSub(w, "scaled-cache-"+v.name, func(c DiffCase, r *runner.Rec) {
 			runDiffCase(w, getAp(), c, r)
